@@ -219,25 +219,28 @@ def run_pca(key):
 
 
 def subchecks(tier, seed):
+    seeds_ = [seed] if tier != 'thorough' else [seed] + [seed * 1000 + v for v in range(1, 8)]
     subs = []
     leads = ((), (3,), (2, 3))
 
     def gev_cases():
-        for D in (2, 3, 5, 8):
-            for lead in leads:
-                for tk in ('rank1', 'rank2', 'full'):
-                    for nk in ('identity', 'cond1e3', 'cond1e6'):
-                        for use_eig in (False, True):
-                            for layout in ('c_readonly', 'fortran'):
-                                yield (D, lead, tk, nk, use_eig, layout, seed)
+        for seed in seeds_:
+            for D in (2, 3, 5, 8):
+                for lead in leads:
+                    for tk in ('rank1', 'rank2', 'full'):
+                        for nk in ('identity', 'cond1e3', 'cond1e6'):
+                            for use_eig in (False, True):
+                                for layout in ('c_readonly', 'fortran'):
+                                    yield (D, lead, tk, nk, use_eig, layout, seed)
     subs.append(Sub('gev_ban_rank1', ('D', 'lead', 'target', 'noise', 'use_eig', 'layout', 'seed'),
                     gev_cases, run_gev))
 
     def pca_cases():
-        for D in (2, 3, 5, 8):
-            for lead in leads:
-                for tk in ('rank1', 'rank2', 'full'):
-                    for scaling in (None, 'trace', 'eigenvalue'):
-                        yield (D, lead, tk, scaling, seed)
+        for seed in seeds_:
+            for D in (2, 3, 5, 8):
+                for lead in leads:
+                    for tk in ('rank1', 'rank2', 'full'):
+                        for scaling in (None, 'trace', 'eigenvalue'):
+                            yield (D, lead, tk, scaling, seed)
     subs.append(Sub('pca', ('D', 'lead', 'target', 'scaling', 'seed'), pca_cases, run_pca))
     return subs
